@@ -39,6 +39,8 @@ type thread struct {
 	// foreground thread can
 	background bool
 	label      string // name given by zzverif.Go (used to force schedules in native replays)
+	goNamed    bool   // label given by zzverif.Go (a derived label is its spawner's label + "+")
+	known      bool   // the native replay knows this thread's label: named by Go, or it has reached a gate
 	afterGate  bool   // passed a single-point gate: its next visible operation is logged as "<label>:+"
 }
 
@@ -254,7 +256,12 @@ func (in *interp) spawn(fr *frame, instr *ssa.Go, fn value, args []value) {
 func (in *interp) spawnNamed(name, site string, fn value, args []value) {
 	s := in.sch
 	s.yield("go")
-	t := &thread{id: len(s.threads), resume: make(chan struct{}), site: site, label: name}
+	t := &thread{id: len(s.threads), resume: make(chan struct{}), site: site, label: name, goNamed: name != "", known: name != ""}
+	if name == "" && s.cur != nil && s.cur.label != "" && s.cur.known {
+		// natively a goroutine's spawner is read off its stack ("created by ... in goroutine N"):
+		// goroutines started by a thread whose label is known carry that label plus "+"
+		t.label = s.cur.label + "+"
+	}
 	switch f := fn.(type) {
 	case *ssa.Function:
 		t.name = f.String()
@@ -298,7 +305,7 @@ func (in *interp) threadMain(t *thread, fn value, args []value) {
 			return
 		}
 	}()
-	if t.label != "" {
+	if t.goNamed {
 		s.schedLog = append(s.schedLog, t.label+":start")
 	}
 	in.callTop(t, fn, args)
